@@ -175,6 +175,31 @@ class Run:
             raise Infra("%s/%s: TLC failed (rc=%s)\n%s" % (module, cfg, rc, "\n".join(lines[-40:])))
         return rec
 
+    def apalache_inductive(self, module, cinit, indinv, timeout=600, indinit=None, implies=None):
+        """Unbounded safety of a small integer/boolean machine: Init => IndInv (length 0) and
+        IndInv /\\ Next => IndInv' (length 1) with Apalache.  Failure or absence of the tool is an
+        infrastructure matter (the bounded TLC result stands on its own)."""
+        if shutil.which("apalache-mc") is None:
+            self.assumptions.append("apalache-mc not available: unbounded inductive check of %s skipped" % module)
+            return False
+        d = self.specdir("apa-" + module)
+        ok = True
+        steps = [("Init", indinv, "0"), (indinit or indinv, indinv, "1")]
+        if implies:
+            steps.append((indinit or indinv, implies, "0"))
+        for init, inv, length in steps:
+            cmd = ["apalache-mc", "check"] + (["--cinit=" + cinit] if cinit else []) + ["--init=" + init, "--inv=" + inv, "--length=" + length,
+                   "--out-dir=" + os.path.join(d, "apa-out"), module + ".tla"]
+            try:
+                r = subprocess.run(cmd, cwd=d, capture_output=True, text=True, timeout=timeout)
+            except subprocess.TimeoutExpired:
+                raise Infra("apalache timed out on %s" % module)
+            if "EXITCODE: OK" not in r.stdout:
+                ok = False
+                raise Infra("apalache: %s is not an inductive invariant of %s (init=%s):\n%s" % (indinv, module, init, r.stdout[-1500:]))
+        self.extra.setdefault("apalache_inductive_invariants", []).append({"module": module, "invariant": indinv, "constants": cinit, "ok": ok})
+        return ok
+
     # ---------------------------------------------------------------- driver
     def drive(self, family, shards=1, extra_args=(), race=False, env=None, timeout=3000):
         vc = self.build_harness(race=race)
